@@ -293,7 +293,29 @@ def shares_cells(a, b):
 
 
 def rel(a, b):
-    return tp._rel(a, b)
+    """normwise relative difference max|a-b| / max|b| (complex-safe; nan/inf count as infinite)"""
+    a = np.asarray(a)
+    b = np.asarray(b)
+    dt = np.complex128 if (np.iscomplexobj(a) or np.iscomplexobj(b)) else np.float64
+    a = a.astype(dt)
+    b = b.astype(dt)
+    if a.shape != b.shape:
+        return float("inf")
+    if a.size == 0:
+        return 0.0
+    d = np.abs(a - b).max()
+    if not np.isfinite(d):
+        return float("inf")
+    return float(d / max(1e-30, np.abs(b).max()))
+
+
+def grad_mask(pt):
+    """per model, per optimisation parameter: did the last backward pass leave a gradient on it?"""
+    return [[p.grad is not None for p in _plist(m)] for _, m in _models(pt)]
+
+
+def nparams(pt):
+    return [len(_plist(m)) for _, m in _models(pt)]
 
 
 def compare_numeric(x, y, tol):
